@@ -155,6 +155,52 @@ def check_pdu(run, reg, choice, klass, v, label):
         run.count("trailing_data_rejected")
 
 
+def check_any_casts(run, rng, n):
+    """a received PDU whose parameter is an 'any': the application looks at the content as the type it knows it to be (cast_out),
+    perhaps twice, and then relays or re-encodes the PDU.  Looking must not change what is there"""
+    from bacpypes.apdu import WritePropertyRequest, ReadPropertyACK
+    from bacpypes.constructeddata import Any, ArrayOf, SequenceOf
+    from bacpypes.primitivedata import Real, CharacterString, Unsigned
+    from bacpypes.basetypes import DateTime as BT_DateTime
+    pool = list(S.ANY_POOL) + [Real, CharacterString, Unsigned, ArrayOf(Unsigned), SequenceOf(BT_DateTime)]
+    for i in range(n):
+        k = pool[i % len(pool)]
+        try:
+            v = S.gen_element(rng, k, 1)
+        except S.CannotBuild:
+            continue
+        for reg, choice, pk in (("confirmed", 15, WritePropertyRequest), ("complex-ack", 12, ReadPropertyACK)):
+            wit = {"pdu": pk.__name__, "content_class": getattr(k, "__name__", str(k))}
+            try:
+                a = Any()
+                a.cast_in(v if not isinstance(v, list) else k(v))
+                pdu = pk(objectIdentifier=("analogValue", 1), propertyIdentifier="presentValue", propertyValue=a)
+                octets = S.encode_pdu(reg, choice, pdu)
+                back, _t = S.decode_pdu(reg, octets)
+            except Exception as err:
+                run.count("any_cast_cases_not_buildable")
+                run.seen("any_cast_not_buildable", type(err).__name__ + ":" + wit["content_class"])
+                continue
+            run.case(("any-cast", pk.__name__, wit["content_class"], i), sample=None)
+            run.count("any_casts_checked")
+            try:
+                first = back.propertyValue.cast_out(k)
+                n1 = S.norm(k, first)
+                second = back.propertyValue.cast_out(k)
+                n2 = S.norm(k, second)
+                again = S.encode_pdu(reg, choice, back)
+            except Exception as err:
+                run.violation("any-content-cannot-be-looked-at-twice/%s" % type(err).__name__, dict(wit, error=repr(err)[:120]))
+                return
+            want = S.norm(k, v if not isinstance(v, list) else k(v))
+            if n1 != want or n2 != want:
+                run.violation("any-content-differs-after-cast", dict(wit, first=repr(n1)[:160], second=repr(n2)[:160], expected=repr(want)[:160]))
+                return
+            if again != octets:
+                run.violation("pdu-changed-by-looking-at-its-any-parameter", dict(wit, before=octets[:40], after=again[:40]))
+                return
+
+
 def patterns(klass):
     """presence patterns / alternatives to enumerate for a class"""
     if issubclass(klass, Choice):
@@ -226,9 +272,10 @@ def main():
                     continue
                 run.case((klass.__name__, repr(S.norm(klass, v))))
                 check_constructed(run, klass, v, p)
+    check_any_casts(run, rng, (4000 if thorough else 400) // (run.shard[1] if thorough else 1))
     if run.shard[0] == 0:
         AF.check_all(run)
-    run.finish(require=("values_encoded", "values_decoded") + (("annex_f_vectors_checked",) if run.shard[0] == 0 else ()))
+    run.finish(require=("values_encoded", "values_decoded", "any_casts_checked") + (("annex_f_vectors_checked",) if run.shard[0] == 0 else ()))
 
 
 if __name__ == "__main__":
